@@ -1318,6 +1318,38 @@ def inline_sym(prog, sym, depth=3):
     return map_sym(sym, step)
 
 
+_FN_CALLS = ("std::ops::Fn::call", "std::ops::FnMut::call_mut", "std::ops::FnOnce::call_once")
+
+
+def beta_reduce(prog, sym, depth=3):
+    """`Fn::call(|l, r| body, (a, b))` with the closure written in place  ->  body[l := a, r := b].
+    Applies to closures with one returned expression, no loops and no merge in that expression; captured variables are
+    substituted from the closure aggregate. Lets a rule read `helper(left, right, |l, r| l > r)` after the helper was inlined."""
+    if depth <= 0:
+        return sym
+
+    def step(node):
+        if node and node[0] == "call" and (node[1] in _FN_CALLS or node[4] in _FN_CALLS) and len(node[2]) == 2:
+            clo, tup = strip(node[2][0]), strip(node[2][1])
+            if clo[0] == "agg" and isinstance(clo[1], str) and clo[1].startswith("closure:") and tup[0] == "agg" and tup[1] == "tuple":
+                g = prog.fns.get(clo[1][len("closure:"):])
+                if g is not None and not g.loops():
+                    rs = returned_syms(g)
+                    if len(rs) == 1 and not any(x[0] in ("phi", "unknown") for x in ir.walk(rs[0][1])):
+                        caps, args = clo[2], tup[2]
+
+                        def sub(n2):
+                            if n2 and n2[0] == "field" and strip(n2[1])[0] == "param" and strip(n2[1])[1] == 1 and str(n2[2]).isdigit() and int(n2[2]) < len(caps):
+                                return caps[int(n2[2])]
+                            if n2 and n2[0] == "param" and isinstance(n2[1], int) and 2 <= n2[1] <= len(args) + 1:
+                                return args[n2[1] - 2]
+                            return _simplify_field(n2)
+                        body = map_sym(rs[0][1], sub)
+                        return beta_reduce(prog, body, depth - 1)
+        return node
+    return map_sym(sym, step)
+
+
 _REL_SWAP = {"<": ">", ">": "<", "<=": ">=", ">=": "<=", "==": "==", "!=": "!="}
 _REL_NEG = {"<": ">=", ">": "<=", "<=": ">", ">=": "<", "==": "!=", "!=": "=="}
 _BIN_REL = {"Lt": "<", "Le": "<=", "Gt": ">", "Ge": ">=", "Eq": "==", "Ne": "!="}
